@@ -879,7 +879,7 @@ void sim_run_begin(void)
         G.plain_mean = means[splitmix(&G.plain_rng) & 3];
         G.plain_countdown = 1 + (int64_t)(splitmix(&G.plain_rng) % (2 * (uint64_t)G.plain_mean));
     }
-    G.now = 1000000000ULL * 1000; /* arbitrary epoch: 1000 s */
+    G.now = 1000000000ULL * 1000000; /* arbitrary epoch: 10^6 s (the monotonic clock of the stubs starts 1000 s after "boot") */
     G.fault_mask = (1u << SIM_F_FUTEX_SPURIOUS) | (1u << SIM_F_COND_SPURIOUS) | (1u << SIM_F_NANOSLEEP_EARLY) | (1u << SIM_F_STALL) |
                    (1u << SIM_F_SLOW_NODE) | (1u << SIM_F_TARGET_DELAY);
     /* strategy (swarm) */
